@@ -41,8 +41,9 @@ func (e *Ecosystem) NewVersion(version string) (*Version, error) {
 		return nil, fmt.Errorf("invalid Ruby Gem version: %s", original)
 	}
 
-	// Canonicalize and parse segments
-	canonical := canonicalizeVersion(version)
+	// Canonicalize and parse segments. As in Gem::Version, a hyphen introduces a
+	// pre-release: "1.0.0-rc1" is read as "1.0.0.pre.rc1".
+	canonical := canonicalizeVersion(strings.ReplaceAll(version, "-", ".pre."))
 	segments, err := parseSegments(canonical)
 	if err != nil {
 		return nil, fmt.Errorf("failed to parse version %s: %v", original, err)
